@@ -10,6 +10,7 @@ package main
 
 import (
 	"bufio"
+	"bytes"
 	"errors"
 	"fmt"
 	"net"
@@ -345,6 +346,74 @@ func (r *c19Rig) checkBehaviour() string {
 	return ""
 }
 
+// c19Pending: a transaction the proxy has sent to one particular backend (an
+// in-dialog request of a dialog pinned to it) and that backend's answer, not
+// yet sent.
+type c19Pending struct {
+	addr string // ip:port of the backend
+	ip   string
+	port int
+	resp []byte
+}
+
+// openTransaction pins a dialog to the member at addr (its 200 to an INVITE
+// passes through the proxy) and lets a re-INVITE of that dialog pass, which the
+// proxy sends to that member; the member's answer is kept for later.
+func (r *c19Rig) openTransaction(addr string) (*c19Pending, string) {
+	ip, port := splitHostPort(addr)
+	r.dialogN++
+	id := fmt.Sprintf("c19t%d", r.dialogN)
+	resp, err := ParseMessage(bufio.NewReader(strings.NewReader(fmt.Sprintf("SIP/2.0 200 OK\r\nVia: SIP/2.0/UDP 127.0.0.3:5999;branch=z9hG4bK%s\r\nFrom: <sip:a@a.example>;tag=f%s\r\nTo: <sip:b@b.example>;tag=t%s\r\nCall-ID: %s\r\nCSeq: 1 INVITE\r\nContent-Length: 0\r\n\r\n", id, id, id, id))))
+	if err != nil {
+		return nil, "harness: " + err.Error()
+	}
+	r.proxy.HandleRawMessage(NewRawMessage(ip, port, &c19Barrier{ch: make(chan struct{}, 1)}, false, resp))
+	if err := r.barrier(); err != nil {
+		return nil, err.Error()
+	}
+	r.hub.drain()
+	req, err := ParseMessage(bufio.NewReader(strings.NewReader(fmt.Sprintf("INVITE sip:svc.test SIP/2.0\r\nVia: SIP/2.0/UDP 127.0.0.9:9;branch=z9hG4bKre%s\r\nFrom: <sip:a@a.example>;tag=f%s\r\nTo: <sip:b@b.example>;tag=t%s\r\nCall-ID: %s\r\nCSeq: 2 INVITE\r\nContent-Length: 0\r\n\r\n", id, id, id, id))))
+	if err != nil {
+		return nil, "harness: " + err.Error()
+	}
+	r.proxy.HandleRawMessage(NewRawMessage("127.0.0.9", 9, &c19Barrier{ch: make(chan struct{}, 1)}, false, req))
+	if err := r.barrier(); err != nil {
+		return nil, err.Error()
+	}
+	for {
+		rx, ok := r.hub.waitOne(2 * time.Second)
+		if !ok {
+			return nil, "" // the request did not come out (not this sub-check's subject)
+		}
+		if rx.msg == nil || rx.closed {
+			continue
+		}
+		if rx.ep == nil || rx.ep.ip != ip {
+			return nil, "" // it went elsewhere (C04's subject)
+		}
+		return &c19Pending{addr: addr, ip: ip, port: port, resp: buildResponse(rx.msg, 200, "OK", "", "")}, ""
+	}
+}
+
+// lateAnswer: the backend's answer to the pending transaction arrives, from
+// the backend's address, after name resolution has taken that address out of
+// the rotation. The rotation and the proxy's index of backend addresses still
+// follow name resolution.
+func (r *c19Rig) lateAnswer(p *c19Pending) string {
+	m, err := ParseMessage(bufio.NewReader(bytes.NewReader(p.resp)))
+	if err != nil {
+		return "harness: " + err.Error()
+	}
+	r.proxy.HandleRawMessage(NewRawMessage(p.ip, p.port, &c19Barrier{ch: make(chan struct{}, 1)}, false, m))
+	if err := r.barrier(); err != nil {
+		return err.Error()
+	}
+	if f := r.checkMembership(); f != "" {
+		return fmt.Sprintf("after the answer to a pending in-dialog transaction arrived from %s, which name resolution had removed in the meantime: %s", p.addr, f)
+	}
+	return ""
+}
+
 func c19OutcomeString(ni int, ips []string, fail bool) string {
 	if fail {
 		return fmt.Sprintf("h%d:fail", ni)
@@ -358,7 +427,7 @@ func c19OutcomeString(ni int, ips []string, fail bool) string {
 
 func TestC19(t *testing.T) {
 	V.Rule("unit with real sockets: sequences of resolution outcomes (failure, or success with any duplicate-free address set incl. the empty one, order drawn) fed through the resolver's own addressResolved into the real rotation and a real Proxy, with quiescence between steps - exhaustively all sequences up to length 4 (thorough: 5) over the 8 subsets of 3 addresses + failure from the blank state, randomly up to length 60 over the subsets of 5 addresses with one host name or two host names (disjoint pools, different ports) feeding the same rotation, udp and tcp backends. Reference machine per name: success => addrs := S, failed := 0; failure => failed++ and iff failed > 3 and addrs non-empty: addrs := {}, failed := 0. After every step: rotation membership and the proxy's backend-address index equal the union of the model's sets; at sequence ends and drawn steps also behaviourally: 2k dispatches reach exactly the k harness sockets at those addresses twice each, vanished backends are closed, a dialog-creating response from address X is attributed iff X is a member. non-trivial = sequence with >= 3 failures in a row after a non-empty success, or a success that both adds and removes; distinct by sequence")
-	V.Require("4th failure empties", "3 failures tolerated", "success adds and removes", "same-set success between failures", "two host names", "tcp backends", "udp backends", "behaviour checked")
+	V.Require("answer of a backend that name resolution had removed meanwhile", "4th failure empties", "3 failures tolerated", "success adds and removes", "same-set success between failures", "two host names", "tcp backends", "udp backends", "behaviour checked")
 	c := 200
 
 	t.Run("exhaustive", func(t *testing.T) {
@@ -507,6 +576,7 @@ func TestC19(t *testing.T) {
 		V.Case(desc)
 		fails := make([]int, nNames)
 		nt := false
+		var pending *c19Pending
 		for i := 0; i < steps; i++ {
 			ni := rapid.IntRange(0, nNames-1).Draw(rt, "name")
 			pool := rig.pools[ni]
@@ -546,6 +616,32 @@ func TestC19(t *testing.T) {
 					V.Class("same-set success between failures")
 				}
 				fails[ni] = 0
+			}
+			// a transaction pending at one member across the steps that follow; when
+			// resolution has removed that member, its answer arrives
+			if pending != nil && !inStrs(pending.addr, rig.expected()) {
+				desc = append(desc, "late-answer:"+pending.addr)
+				V.Case(desc)
+				V.Class("answer of a backend that name resolution had removed meanwhile")
+				if f := rig.lateAnswer(pending); f != "" {
+					failf(rt, "after step %d of %v: %s", i+1, desc, f)
+				}
+				pending = nil
+				if f := rig.checkBehaviour(); f != "" {
+					failf(rt, "after step %d of %v: %s", i+1, desc, f)
+				}
+			}
+			if want := rig.expected(); pending == nil && len(want) > 0 && rapid.IntRange(0, 4).Draw(rt, "a transaction stays pending at one member") == 0 {
+				x := want[rapid.IntRange(0, len(want)-1).Draw(rt, "which member")]
+				p, f := rig.openTransaction(x)
+				if f != "" {
+					failf(rt, "after step %d of %v: %s", i+1, desc, f)
+				}
+				if p != nil {
+					pending = p
+					desc = append(desc, "pending@"+x)
+					V.Case(desc)
+				}
 			}
 			if rapid.IntRange(0, 9).Draw(rt, "probe") == 0 || i == steps-1 {
 				V.Class("behaviour checked")
